@@ -2,6 +2,7 @@ package main
 
 import (
 	"fmt"
+	"go/token"
 	"sort"
 	"strings"
 
@@ -16,7 +17,8 @@ func init() {
 			"(R04.2) names: declarations are hashed with hashWithPackage, fields with hashWithStruct on (fieldToStruct[o], o), assembly files with hashWithPackage(...)+\".s\" on both sides; " +
 			"(R04.3) every pair appended to the replacement list is (hashed, original), and the more specific key X+\":1\" precedes its prefix X; " +
 			"(R04.4) reverseContent writes the replaced text of every line it reads, including a last line without newline, before looking at the read error, and commandReverse exits with status 1 exactly when nothing was modified; " +
-			"(R04.5) every listed package is visited and only those not selected for obfuscation are skipped. " +
+			"(R04.5) every listed package is visited and only those not selected for obfuscation are skipped; " +
+			"(R04.6) the line directive of a call is anchored at a token of the call itself (known finding F15: it is anchored at the next identifier in source order, so multi-line call chains are not reversed). " +
 			"Does not decide that offsets of the compile-time syntax tree equal those of a fresh parse, nor the semantics of strings.Replacer.",
 		perConfig: checkC04,
 	})
@@ -81,6 +83,7 @@ func positionShape(w *World, cs CallSite) (posHashShape, bool) {
 
 func checkC04(c *Ctx) {
 	w := c.W
+	checkCallAnchor(c)
 	hwp := w.Fn("hashWithPackage")
 	c.Rule("R04.1", "forward and reverse build the position hash input the same way", 4)
 	var fwd, rev *posHashShape
@@ -386,4 +389,63 @@ func (s *Slice) hasLocal(name string) bool {
 		}
 	}
 	return false
+}
+
+// checkCallAnchor is R04.6. The runtime attributes a call to the line of the called
+// function's name / opening parenthesis, while (*ast.CallExpr).Pos() is the start of
+// the call's first operand. garble keys a call by Pos() on both sides, which is fine,
+// but the forward side must also attach the /*line H:1*/ directive at a token that
+// sits where the call is reported: an identifier taken from the call's Fun (the
+// selector's Sel, or the function identifier), or the parenthesis. Attaching it to
+// "whichever identifier comes next in source order" puts it on the first line of the
+// expression: for
+//
+//	t.First().
+//		Boom()
+//
+// the call of Boom is reported one line below its directive, as H.go:2, a string the
+// reverse table does not contain; calls whose Fun starts with another call share a
+// single directive; and for go func(){...}() the directive lands inside the literal.
+func checkCallAnchor(c *Ctx) {
+	w := c.W
+	c.Rule("R04.6", "a call's line directive is anchored at a token of the call itself (its Fun's name or parenthesis), not at the next identifier in source order", 1)
+	pf := w.Fn("printFile")
+	if pf == nil {
+		c.Undecided("R04.6", "printFile call anchor", "", "printFile not found")
+		return
+	}
+	usesPos, usesShape := false, false
+	var at token.Pos
+	fns := []*ssa.Function{pf}
+	for name, fn := range w.funcs {
+		if strings.HasPrefix(name, "printFile$") {
+			fns = append(fns, fn)
+		}
+	}
+	for _, fn := range fns {
+		for _, b := range fn.Blocks {
+			for _, in := range b.Instrs {
+				switch x := in.(type) {
+				case *ssa.Call:
+					if calleeName(x) == "(*go/ast.CallExpr).Pos" {
+						usesPos = true
+						at = x.Pos()
+					}
+				case *ssa.FieldAddr:
+					if namedOf(x.X.Type()) == "CallExpr" {
+						switch fieldName(x.X.Type(), x.Field) {
+						case "Fun", "Lparen", "Rparen":
+							usesShape = true
+						}
+					}
+				}
+			}
+		}
+	}
+	if !usesPos && !usesShape {
+		c.Undecided("R04.6", "printFile call anchor", w.Pos(pf.Pos()), "printFile no longer looks at call expressions at all")
+		return
+	}
+	c.Check(usesShape, "R04.6", "printFile call anchor", w.Pos(at), "the anchor is derived from the call's Fun or parenthesis",
+		"printFile records a call's offset and hands it to the next identifier in source order: a call whose name or parenthesis is on a later line than the start of its first operand is reported at H.go:2, H.go:3, ... which garble reverse cannot map back")
 }
